@@ -9,7 +9,7 @@
    All traces are validated in ONE run: `tid` is chosen in Init; `mismatch` records the first
    event of the trace that does not conform (trace id, event index, failing clause).
 
-   Trace file (JSON): [ { model, init: {n, fc, hbs, hms, area, pol},
+   Trace file (JSON): [ { model, init: {n, fc, hbs, hms, area, pol, shadow, sigma},
                           ev: [ {op, arg, out, post: {..model's public parameters..}, preds: {name: bool}} ] } ]
    numbers are normalised rationals [p, q].                                                    *)
 EXTENDS Integers, Sequences, TLC, Json, IOUtils, PathLossParams
@@ -23,7 +23,8 @@ T == Traces[tid]
 Init == /\ tid \in 1..Len(Traces) /\ i = 0 /\ mismatch = <<>>
         /\ st = Traces[tid].init
 
-Field(op) == CASE op = "SetPol" -> "pol" [] op = "SetN" -> "n" [] op = "SetFc" -> "fc"
+Field(op) == CASE op = "SetPol" -> "pol" [] op = "SetShadow" -> "shadow" [] op = "SetSigma" -> "sigma"
+               [] op = "SetN" -> "n" [] op = "SetFc" -> "fc"
                [] op = "SetHbs" -> "hbs" [] op = "SetHms" -> "hms" [] op = "SetArea" -> "area"
 
 \* the specification's successor for one logged call
@@ -50,7 +51,7 @@ Next == Step \/ Done
 
 Conforms == mismatch = <<>>
 \* the parameters of the specification's state stay admissible along every validated history
-StateValid == /\ st.pol \in BOOLEAN
+StateValid == /\ st.pol \in BOOLEAN /\ st.shadow \in BOOLEAN /\ RSgn(st.sigma) >= 0
               /\ T.model = "freespace" => RSgn(st.n) > 0 /\ RSgn(st.fc) > 0
               /\ T.model = "hata" => /\ st.area \in AreaTypes /\ LLe(R(30), st.hbs) /\ LLe(st.hbs, R(200))
                                      /\ LLe(R(1), st.hms) /\ LLe(st.hms, R(10))
